@@ -1,7 +1,9 @@
 CONSTANTS
+  Strict = TRUE
   Variant = "ok"
   MaxMoves = 99
   CfgSel = {"weekly", "oneshot", "workday"}
+  StartSel = {1, 2}
   Depth = 5
 SPECIFICATION GSpec
 CONSTRAINT Emit
